@@ -58,6 +58,8 @@ def gen_plan(rng, prop):
         s["size_type"] = rng.choice(["int64", "int32", "uint8", "int16"])     # "every capacity >= 1", of any integer type
         if s["size_type"] == "uint8" and s["size"] > 255:
             s["size_type"] = "int64"
+    if s["kind"] == "geometric" and s.get("p") is not None and rng.random() < 0.25:
+        s["p_type"] = rng.choice(["float32", "float16", "float64"])
     cfg = {"storage": s, "rng": mode}
     if mode == "tape" and rng.random() < 0.5:
         cfg["ctor_tape"] = {"u": [rng.choice(list(seams.U_MODES)) for _ in range(2)]}
